@@ -916,6 +916,32 @@ func c17MultiPlans(r *Run) []c17Plan {
 		r.Rng.Shuffle(len(sched), func(a, b int) { sched[a], sched[b] = sched[b], sched[a] })
 		plans = append(plans, c17Plan{kind: "m-steps", typ: typ, n: n, multi: true, progs: progs, lateW: lateW, sched: sched})
 	}
+	// (3b) a writer that gave up: thread 0 is parked inside its write (directly before the
+	// _localHeads write); thread 1 then makes its only call with a context that has ended (it
+	// queues behind thread 0, or gives up - either is fine, but it must not let anybody else in);
+	// thread 2 is asked to do all of its writes; then thread 0 goes on
+	nDead := 4
+	if r.Tier == "thorough" {
+		nDead = 16
+	}
+	for k := 0; k < nDead; k++ {
+		typ := types[r.Rng.Intn(len(types))]
+		g := &c17Gen{r: r, typ: typ}
+		progs := make([][]*c17Call, 3)
+		progs[0] = g.prog(0, "puts", 1, 1)
+		progs[1] = g.prog(1, "", 1, 1)
+		for _, c := range progs[1] {
+			c.deadCtx = true
+		}
+		progs[2] = g.prog(2, "", 1, 2)
+		counts := c17Counts(progs)
+		sched := chain(nil, 0, 1)
+		sched = chain(sched, 1, 1)
+		sched = chain(sched, 2, 4*counts[2])
+		sched = chain(sched, 0, 4*counts[0]-1)
+		sched = chain(sched, 1, 4*counts[1])
+		plans = append(plans, c17Plan{kind: "m-gave-up", typ: typ, n: 3, multi: true, progs: progs, lateW: []bool{true, false, k%2 == 0}, sched: sched})
+	}
 	// (4) free runs; with delay: the first _localHeads write of every call of one or two of
 	// the threads (thread 0, which makes one multi-entry call, among them) is held back
 	for k := 0; k < nDelay+nFree; k++ {
